@@ -12,14 +12,14 @@ func init() {
 }
 
 var sqlLeafForms = []int{lfEqStr, lfEqInt, lfGt, lfGe, lfLt, lfLe, lfRangeIncl, lfRangeExcl, lfRangeLo, lfRangeHi, lfRangeStr, lfList,
-	lfWild, lfQuoted, lfRangeExclStr, lfRangeStrLo, lfRangeStrHi, lfRangeAll, lfRangeExclLo, lfRangeExclHi, lfListInt, lfWildMid, lfRegexp, lfFloat, lfRangeFloat, lfRangeFloatEx, lfRegexpShort, lfSpecialFloat, lfRangeComma, lfEqSpecial}
+	lfWild, lfQuoted, lfRangeExclStr, lfRangeStrLo, lfRangeStrHi, lfRangeAll, lfRangeExclLo, lfRangeExclHi, lfListInt, lfWildMid, lfRegexp, lfFloat, lfRangeFloat, lfRangeFloatEx, lfRegexpShort, lfSpecialFloat, lfRangeComma, lfEqSpecial, lfEqBig, lfRangeBig, lfRangeMixed, lfQuotedDigits}
 
 var sqlTreeOps = []int{nOr, nAnd, nNot, nMustNot, nMust}
 
 // leafIsInt: the field of this leaf holds integers (else strings).
 func leafIsInt(lf *leaf) bool {
 	switch lf.form {
-	case lfEqInt, lfGt, lfGe, lfLt, lfLe, lfRangeIncl, lfRangeExcl, lfRangeLo, lfRangeHi, lfRangeExclLo, lfRangeExclHi, lfListInt, lfRangeAll:
+	case lfEqInt, lfGt, lfGe, lfLt, lfLe, lfRangeIncl, lfRangeExcl, lfRangeLo, lfRangeHi, lfRangeExclLo, lfRangeExclHi, lfListInt, lfRangeAll, lfEqBig, lfRangeBig:
 		return true
 	}
 	return false
@@ -28,7 +28,7 @@ func leafIsInt(lf *leaf) bool {
 // leafEvaluable: forms whose meaning the row evaluator models (no floats, no regexps).
 func leafEvaluable(lf *leaf) bool {
 	switch lf.form {
-	case lfRegexp, lfRegexpShort, lfFloat, lfRangeFloat, lfRangeFloatEx, lfSpecialFloat:
+	case lfRegexp, lfRegexpShort, lfFloat, lfRangeFloat, lfRangeFloatEx, lfSpecialFloat, lfRangeMixed:
 		return false
 	}
 	return true
@@ -55,8 +55,12 @@ func globMatch(s, pat string) bool {
 // leafMeaning: the truth of the leaf on a row value, as C03 states it.
 func leafMeaning(lf *leaf, x rowVal) bool {
 	switch lf.form {
-	case lfEqStr, lfQuoted, lfEqSpecial:
+	case lfEqStr, lfQuoted, lfEqSpecial, lfQuotedDigits:
 		return x.s == lf.s1
+	case lfEqBig:
+		return x.i == lf.i1
+	case lfRangeBig:
+		return x.i >= lf.i1
 	case lfEqInt:
 		return x.i == lf.i1
 	case lfGt:
@@ -124,7 +128,10 @@ func rowFor(t *node) *sqlRow {
 	r := &sqlRow{}
 	for _, n := range collect(t, nLeaf, nil) {
 		r.names = append(r.names, n.lf.field)
-		if leafIsInt(n.lf) {
+		if n.lf.form == lfEqBig || n.lf.form == lfRangeBig {
+			// rows around the big constant
+			r.vals = append(r.vals, rowVal{isInt: true, i: n.lf.i1 + rtInt("rowdelta", -2, 2)})
+		} else if leafIsInt(n.lf) {
 			r.vals = append(r.vals, rowVal{isInt: true, i: rtInt("rowint", -3, 103)})
 		} else {
 			ln := rtChoose("rowlen", 4)
@@ -173,7 +180,7 @@ func normDec(t string) string {
 func hasOpenEnd(t *node) bool {
 	for _, n := range collect(t, nLeaf, nil) {
 		switch n.lf.form {
-		case lfRangeLo, lfRangeHi, lfRangeStrLo, lfRangeStrHi, lfRangeAll, lfRangeExclLo, lfRangeExclHi:
+		case lfRangeLo, lfRangeHi, lfRangeStrLo, lfRangeStrHi, lfRangeAll, lfRangeExclLo, lfRangeExclHi, lfRangeBig:
 			return true
 		}
 	}
@@ -194,8 +201,12 @@ func translatePattern(p string) string {
 
 func leafValues(lf *leaf) []qval {
 	switch lf.form {
-	case lfEqStr, lfQuoted, lfRangeStrLo, lfRangeStrHi, lfEqSpecial:
+	case lfEqStr, lfQuoted, lfRangeStrLo, lfRangeStrHi, lfEqSpecial, lfQuotedDigits:
 		return []qval{{s: lf.s1}}
+	case lfEqBig, lfRangeBig:
+		return []qval{{isInt: true, i: lf.i1}}
+	case lfRangeMixed:
+		return []qval{{isInt: true, i: lf.i1}, {isFlt: true, f: 2.5, fs: "2.5"}}
 	case lfEqInt, lfGt, lfGe, lfLt, lfLe, lfRangeLo, lfRangeHi, lfRangeExclLo, lfRangeExclHi:
 		return []qval{{isInt: true, i: lf.i1}}
 	case lfRangeIncl, lfRangeExcl, lfListInt:
@@ -467,7 +478,11 @@ func H_SQLTree() {
 	} else {
 		forms = []int{lfEqInt, lfLe, lfRangeIncl, lfEqStr, lfListInt}
 	}
-	t := genTree(rtParam("D"), sqlTreeOps, forms)
+	ops := sqlTreeOps
+	if rtParam("OPS") == 1 {
+		ops = []int{nOr, nNot, nAnd}
+	}
+	t := genTree(rtParam("D"), ops, forms)
 	text := printNode(t, 0, &printOpts{})
 	rtObserve("text", text)
 	sqlChecks(t, text, rtParam("NOROWS") == 0)
@@ -549,20 +564,40 @@ func H_IdentConfined() {
 		}
 		text = append(text, '"')
 	}
-	q := string(text) + ":v"
+	// what follows the field name: equality, a numeric range, a comparison, a list, a pattern
+	tails := []string{":v", ":[1 TO 5]", ":>3", ":(v OR w)", ":v*", ":{1.5 TO 2.5}"}
+	tail := tails[rtParam("TAIL")]
+	q := string(text) + tail
 	rtObserve("query", q)
 	rtObserve("fields", string(name))
-	rtObserve("strvals", "v")
+	rtObserve("strvals", "v\x1fw\x1fv%")
 	sql, err := lucene.ToPostgres(q)
 	if err != nil {
 		rtReach("rejected")
 	} else {
 		rtObserve("sql", sql)
 		ast, _, ok := pgParse(sql)
-		good := ok && ast.kind == qCmp && ast.op == "=" && ast.a.kind == qCol && ast.b.kind == qStr
-		rtAssert("ident-confined", good)
-		if good {
-			rtAssert("ident-is-the-name", rtAnd(ast.a.text == string(name), ast.b.text == "v"))
+		if ok {
+			rtObserve("sqlmodel", "ok")
+		} else {
+			rtObserve("sqlmodel", "bad")
+		}
+		rtAssert("ident-confined", ok)
+		if ok {
+			// every column reference is the name, every constant one of the tail's constants
+			var cols, strs, nums []string
+			ast.collect(&cols, &strs, &nums)
+			good := len(cols) >= 1
+			for _, c := range cols {
+				good = rtAnd(good, c == string(name))
+			}
+			for _, x := range strs {
+				good = rtAnd(good, oneOf(x, []string{"v", "w", "v%"}))
+			}
+			for _, x := range nums {
+				good = rtAnd(good, oneOf(normDec(x), []string{"1", "5", "3", "1.5", "2.5"}))
+			}
+			rtAssert("ident-is-the-name", good)
 			rtAssert("ident-nonempty", len(name) > 0)
 		}
 	}
@@ -571,10 +606,15 @@ func H_IdentConfined() {
 	if perr == nil {
 		rtObserve("psql", psql)
 		ast, np, ok := pgParse(psql)
-		good := ok && np == 1 && len(params) == 1 && ast.kind == qCmp && ast.a.kind == qCol && ast.b.kind == qParam
-		rtAssert("ident-param-confined", good)
-		if good {
-			rtAssert("ident-param-is-the-name", ast.a.text == string(name))
+		rtAssert("ident-param-confined", ok && np == len(params))
+		if ok {
+			var cols, strs, nums []string
+			ast.collect(&cols, &strs, &nums)
+			good := len(cols) >= 1 && len(strs) == 0 && len(nums) == 0
+			for _, c := range cols {
+				good = rtAnd(good, c == string(name))
+			}
+			rtAssert("ident-param-is-the-name", good)
 		}
 	}
 	rtReach("end")
@@ -600,9 +640,7 @@ func H_ValueConfined() {
 				}
 				text = append(text, b)
 			case 1:
-				b := rtByte("e")
-				rtAssume(b < 0x80)
-				rtAssume(b != 0)
+				b := rtByte("e") // any byte value, NUL and invalid UTF-8 included
 				text = append(text, '\\', b)
 			default:
 				text = append(text, holeByte("wc", "*?"))
@@ -617,13 +655,11 @@ func H_ValueConfined() {
 		text = append(text, '/')
 		for u := 0; u < units; u++ {
 			if rtChoose("unit", 2) == 0 {
-				b := rtByte("r")
-				rtAssume(rtAnd(b < 0x80, b != 0))
+				b := rtByte("r") // any byte value except the delimiter and the escape
 				rtAssume(rtAnd(b != '/', b != '\\'))
 				text = append(text, b)
 			} else {
 				b := rtByte("e")
-				rtAssume(rtAnd(b < 0x80, b != 0))
 				text = append(text, '\\', b)
 			}
 		}
